@@ -387,13 +387,27 @@ func c13a(c *Ctx) {
 		}
 		for _, st := range storesToField(fn, s.pkg, s.typ, s.field) {
 			v := c.term(fn, st.Val)
-			if !strings.Contains(v, s.want) && !strings.HasPrefix(s.want, "Literal=") {
+			if !strings.Contains(v, s.want) {
 				// a value handed back by a helper: every origin must be the joined result
-				os := c.originsOf(fn, st.Val, nil, 2)
+				src := st.Val
+				want := s.want
+				if strings.HasPrefix(s.want, "Literal=") {
+					// a token whose Literal is the value: follow the Literal
+					want = strings.TrimPrefix(s.want, "Literal=")
+					src = nil
+					if _, f := c.valueWith(fn, st.Val); f != nil && f["Literal"] != "" {
+						src = c.valueOfTerm(fn, f["Literal"])
+					}
+				}
+				var os []valueOrigin
+				if src != nil {
+					os = c.originsOf(fn, src, nil, 2)
+				}
+				_ = want
 				all := len(os) > 0
 				for _, o := range os {
 					ot := c.term(o.fn, o.v)
-					if !strings.Contains(ot, s.want) && ot != `""` {
+					if !strings.Contains(ot, want) && ot != `""` {
 						all = false
 					}
 				}
